@@ -85,6 +85,11 @@ add("C04", "Hypothesis-drawn overlap requests evaluated on random amplitude tens
     "the (unsimplified) derived overlap must cancel numerically for arbitrary amplitude values.",
     "Trusted: F_p evaluator, fock.vev. No Hamiltonian is involved: the identity is algebraic in the amplitudes.")
 
+add("C05", "Hypothesis-drawn property/transition-moment requests and model Hamiltonians; reference model = explicit matrix elements between explicitly built intermediate states / the normalised perturbed ground state in determinant space over F_p",
+    "Generated-input search: expec_block_contribution and trans_moment_space for all five variants incl. mixed left/right pairs, spaces of the two lowest classes, operator strings (n_create, n_annihilate) in {0,1,2}^2 (also particle-number changing), "
+    "orders <= 2, subtract_gs on/off; random operator matrix and random normalised amplitude vectors with the documented 1/sqrt(n_o! n_v!) convention.",
+    "Trusted: fock.py, rspt.py, isr.py (orthonormality self test). Expensive blocks are capped in order.")
+
 NOT_YET = "check not built yet in this round (planned, see DESIGN.md)"
 
 def main():
